@@ -32,7 +32,10 @@ Definition owner_table : list (string * Z) := [
                                 default is -1 (fact sample_max_size_default): [world_of_facts].
    S_MesRvs                   : _gaussian_acquisition calls gaussian_mes only for acq_func in ["MES"] (after stripping the "d").
    S_SdvSample / S_SdvSetOrder: Space.model_sdv is None unless CBO.fit_generative_model was called (outside the quantifier).
-   S_RegevoSetOrder           : reachable by every RegularizedEvolution search once the population is full. *)
+   S_RegevoSetOrder           : reachable by every RegularizedEvolution search once the population is full.
+   S_InternalAlias            : Optimizer / Space keep the space objects they are constructed with; they are internal classes whose only
+                                constructions inside the anchors pass objects derived from Search._problem (deep copy of the caller's problem,
+                                environment site Search.__init__ self._problem=copy.deepcopy [Owned]); validated by the shared-problem process pairs. *)
 Definition key_table : list ((string * string * string * string) * Z) := [
   (("hpo/_search.py", "Search.__init__", "np.random.RandomState", "else:type(random_state) is int"), S_FreshSearch);
   (("skopt/moo/_multiobjective.py", "MoScalarFunction.__init__", "np.random.RandomState", "else:type(random_state) is int"), S_FreshMoo);
@@ -41,7 +44,10 @@ Definition key_table : list ((string * string * string * string) * Z) := [
   (("skopt/space/space.py", "Space.rvs", "self.model_sdv.sample", "if:self.config_space"), S_SdvSample);
   (("skopt/space/space.py", "Space.rvs", "self.model_sdv.sample", "else:self.config_space"), S_SdvSample);
   (("skopt/space/space.py", "Space.rvs", "list:set(hps_names) - set(sdv_names)", "if:self.config_space"), S_SdvSetOrder);
-  (("hpo/_regevo.py", "RegularizedEvolution._ask", "list:space.get_active_hyperparameters", "else:len(self._population) < self.population_size"), S_RegevoSetOrder)
+  (("hpo/_regevo.py", "RegularizedEvolution._ask", "list:space.get_active_hyperparameters", "else:len(self._population) < self.population_size"), S_RegevoSetOrder);
+  (("skopt/optimizer/optimizer.py", "Optimizer.__init__", "self.space=dimensions", "if:isinstance(dimensions, Space)"), S_InternalAlias);
+  (("skopt/optimizer/optimizer.py", "Optimizer.__init__", "self.space=Space", "else:isinstance(dimensions, Space)"), S_InternalAlias);
+  (("skopt/space/space.py", "Space.__init__", "self.config_space=config_space", ""), S_InternalAlias)
 ].
 
 Definition str4 := (string * string * string * string)%type.
